@@ -31,6 +31,17 @@ THEOREMS = [
     "Cv.C01e.plain_bfs_layers_eq_dist",
     "Cv.C01e.encoded_bfs_width_independent",
     "Cv.C01e.encoded_bfs_eq_plain",
+    "Cv.C01m.matGraph_act_eq",
+    "Cv.C01m.matGraph_act_eq_any",
+    "Cv.C01m.matGraph_act_eq_modulo0",
+    "Cv.C01m.matGraph_act_ne_of_overflow",
+    "Cv.C01m.apply_batch_int64_eq_model",
+    "Cv.C01m.apply_batch_int64_sum_eq_model",
+    "Cv.C01m.apply_batch_int64_eq_model_modulo0",
+    "Cv.C01m.mat_bfs_layers_eq_dist",
+    "Cv.C01m.mat_bfs_layers_eq_dist_invClosed",
+    "Cv.C01m.mat_bfs_completes",
+    "Cv.C01m.mat_bfs_layers_eq_dist_modulo0",
 ]
 
 
@@ -150,7 +161,7 @@ def main():
         if "replay" in body or "case" in body:
             ck.guard(run_case, ck, body.get("case") or body["replay"]["case"])
         ck.finish(rule="replay of one recorded case")
-    ck.lean_obligations(["CvProps.C01", "CvProps.C01e", "CvProps.C17"], THEOREMS)
+    ck.lean_obligations(["CvProps.C01", "CvProps.C01e", "CvProps.C17", "CvProps.C01m"], THEOREMS)
     # corpus first
     corpus = json.load(open(os.path.join(VERIF, "harness", "corpus", "C01.json")))
     for case in corpus:
